@@ -18,6 +18,7 @@ var propPkgs = map[string][]string{
 	"C11": {"pkg/encoding"},
 	"C05": {"banyand/internal/snapshot"},
 	"C16": {"pkg/node", "pkg/partition", "pkg/convert"},
+	"C10": {"pkg/query/aggregation"},
 }
 
 type Finding struct {
